@@ -834,7 +834,9 @@ PROPS = {
                      # at value level: what Get stores (first row) and what GetAll appends, for every destination type of the zoo
                      {"kind": "scan", "n": {"quick": 3000, "thorough": 100000}, "oracle_props": ["C15"]}]},
     "C03": {"uses_genconsts": True, "runs": [bind_run(proj_bind_c03, ["C03"]),
-                                             {"kind": "determ", "n": {"quick": 300, "thorough": 10000}, "oracle_props": ["C03"]}]},
+                                             {"kind": "determ", "n": {"quick": 300, "thorough": 10000}, "oracle_props": ["C03"]},
+                                             # the placeholders that are executed are those generated for this call's values
+                                             cache_run_spec(proj_cache_events, ["C03"], nq=60, nt=600)]},
     "C04": {"uses_genconsts": True, "runs": [bind_run(proj_bind_c04, ["C04"]), cache_run_spec(proj_cache_events, ["C04"], nq=60, nt=600),
                                              {"kind": "determ", "n": {"quick": 200, "thorough": 5000}, "oracle_props": ["C04"]}]},
     "C05": {"uses_genconsts": True, "runs": [bind_run(proj_bind_c05, ["C05"]), tx_run_spec(["C05"], compare=True, nq=200),
